@@ -12,6 +12,7 @@ package c16
 import (
 	"bytes"
 	"fmt"
+	"strings"
 
 	s "github.com/ontio/ontology-crypto/signature"
 	"github.com/ontio/ontology/common"
@@ -25,6 +26,8 @@ import (
 )
 
 // specAccept is the property's own statement on the object as it is now (no validator code).
+// dupOnly: the only failed clause is "M distinct KEYS" (a repeated key counted per position), the
+// class O1 reports on the fresh object.
 func (d *Drv) specAccept(tx *types.Transaction) (bool, string) {
 	hash := tx.Hash()
 	key := string(hash[:]) + "|" + string(tx.Payer[:])
@@ -56,6 +59,7 @@ func specAcceptRaw(tx *types.Transaction) (bool, string) {
 		return false, "more than 16 sets"
 	}
 	signers := map[common.Address]bool{}
+	dup := ""
 	for si, g := range tx.Sigs {
 		v := ViewSet(g)
 		if !v.Parsed {
@@ -79,6 +83,9 @@ func specAcceptRaw(tx *types.Transaction) (bool, string) {
 		if got := maxMatching(ok, n); got < m {
 			return false, fmt.Sprintf("set %d: %d of %d counted signatures verify under distinct keys", si, got, m)
 		}
+		if okd, nd := byDistinctKey(ok, v.Keys); maxMatching(okd, nd) < m {
+			dup = fmt.Sprintf("set %d: fewer than %d distinct keys signed (a repeated key is counted per position)", si, m)
+		}
 		addr, okA := SpecAddress(v.Keys, m)
 		if !okA {
 			return false, fmt.Sprintf("set %d has no address", si)
@@ -88,8 +95,13 @@ func specAcceptRaw(tx *types.Transaction) (bool, string) {
 	if !signers[tx.Payer] {
 		return false, "payer is not a signer"
 	}
+	if dup != "" {
+		return false, dupMarker + dup
+	}
 	return true, ""
 }
+
+const dupMarker = "[duplicate-key] "
 
 // verifyCode runs VerifyTransaction on the object; accepted = ErrNoError.
 func verifyCode(tx *types.Transaction) (accepted, panicked bool, msg string) {
@@ -139,7 +151,9 @@ func (d *Drv) Histories(in Input, raw []byte, fresh Outcome) {
 			return
 		}
 		if accepted {
-			if ok, why := d.specAccept(tx); !ok {
+			if ok, why := d.specAccept(tx); !ok && strings.HasPrefix(why, dupMarker) {
+				c.Count("history-duplicate-key-accepted:" + name) // the class O1 reports on the fresh object
+			} else if !ok {
 				c.Fail("accepted-invalid-in-history:"+name, "accepted although, on the object as it is at the time of the call, "+why, hin, "accepted", "rejected")
 				return
 			}
